@@ -146,4 +146,53 @@ def step (good : Bool) (s : Sys) (t : Nat) : Sys :=
 
 def run (good : Bool) (s : Sys) (sched : List Nat) : Sys := sched.foldl (step good) s
 
+/-! ### Client shutdown (`RPCClient.Close`, `deregisterAll`) -/
+
+/-- Extracted shape of `RPCClient.Close`. -/
+structure CloseShape where
+  /-- `shutdownLock.Lock()` first, released only when the function returns -/
+  lockedWholeBody : Bool
+  /-- the body tests `!c.shutdown` … -/
+  testInside : Bool
+  /-- … sets `c.shutdown = true` under that test … -/
+  setInside : Bool
+  /-- … and every `close(c.shutdownCh)` sits under it -/
+  closeChGuarded : Bool
+  closeChCount : Nat
+  deriving DecidableEq, Repr, Inhabited
+
+def CloseShape.good (c : CloseShape) : Bool :=
+  c.lockedWholeBody && c.testInside && c.setInside && c.closeChGuarded && c.closeChCount == 1
+
+/-- Extracted shape of `deregisterAll`: what `c.dispatch` is afterwards ("fresh" map, "nil", "unchanged", "other"). -/
+structure DeregShape where
+  lockedWholeBody : Bool
+  tableAfter : String
+  deriving DecidableEq, Repr, Inhabited
+
+/-- Requests issued after `Close` register their handler in `c.dispatch` before `send` fails: the table must be a
+usable map (a write to a nil map panics). -/
+def DeregShape.good (d : DeregShape) : Bool := d.lockedWholeBody && d.tableAfter == "fresh"
+
+/-- State of the client's shutdown flag and channel. `closes` counts `close(shutdownCh)`: a second one panics. -/
+structure CS where
+  shutdown : Bool := false
+  closes : Nat := 0
+  /-- per thread: has read `shutdown == false` and not yet acted on it (only when the section is not atomic) -/
+  pending : List Bool := []
+  deriving DecidableEq, Repr, Inhabited
+
+/-- One scheduler step of thread `t` calling `Close`.  With the lock held over the whole body the test, the
+assignment and the channel close are one atomic action; otherwise the test is one step and the rest another. -/
+def closeStep (atomic : Bool) (s : CS) (t : Nat) : CS :=
+  if atomic then
+    if s.shutdown then s else { s with shutdown := true, closes := s.closes + 1 }
+  else
+    match s.pending[t]? with
+    | some true => { shutdown := true, closes := s.closes + 1, pending := s.pending.set t false }
+    | some false => if s.shutdown then s else { s with pending := s.pending.set t true }
+    | none => s
+
+def closeRun (atomic : Bool) (s : CS) (sched : List Nat) : CS := sched.foldl (closeStep atomic) s
+
 end SerfModel.RpcClient
